@@ -110,7 +110,12 @@ def materialise(l0, l1, l2, r0, r1, r2, m0, m1, m2, s0, s1, s2, p0, p1, p2, q0, 
     if K >= 2:
         LK.append(H.render_keys([m0, m1, m2][:nl], c.get('ktype2', 'int'), nc2))
         RK.append(H.render_keys([s0, s1, s2][:nr], c.get('ktype2', 'int'), nc2))
-    knl = ['k', 'j'][:K]; knr = ['k', 'jj'][:K]
+    if K >= 3:
+        # third key column: the first column's classes rendered as strings (exercises 3-component key tuples
+        # without multiplying the number of equality patterns)
+        LK.append(H.render_keys([l0, l1, l2][:nl], 'str', nc))
+        RK.append(H.render_keys([r0, r1, r2][:nr], 'str', nc))
+    knl = ['k', 'j', 'h'][:K]; knr = ['k', 'jj', 'hh'][:K]
     lcols = list(LK); lnames = list(knl)
     rcols = list(RK); rnames = list(knr)
     if W >= 1:
@@ -126,7 +131,7 @@ def materialise(l0, l1, l2, r0, r1, r2, m0, m1, m2, s0, s1, s2, p0, p1, p2, q0, 
 
 
 def key_specs(L, R, LK, RK, spec, K):
-    knl = ['k', 'j'][:K]; knr = ['k', 'jj'][:K]
+    knl = ['k', 'j', 'h'][:K]; knr = ['k', 'jj', 'hh'][:K]
     if spec == 'name':
         lo = knl if K > 1 else 'k'; ro = knr if K > 1 else 'k'
     elif spec == 'col':
@@ -136,8 +141,8 @@ def key_specs(L, R, LK, RK, spec, K):
         lo = [Vector(list(ks)) for ks in LK] if K > 1 else Vector(list(LK[0]))
         ro = [Vector(list(ks)) for ks in RK] if K > 1 else Vector(list(RK[0]))
     elif spec == 'mixed':
-        lo = ['k', L['j']] if K > 1 else L['k']
-        ro = [Vector(list(RK[0])), 'jj'] if K > 1 else 'k'
+        lo = (['k', L['j']] + knl[2:]) if K > 1 else L['k']
+        ro = ([Vector(list(RK[0])), 'jj'] + [R[n_] for n_ in knr[2:]]) if K > 1 else 'k'
     else:
         raise ValueError(spec)
     return lo, ro
